@@ -551,7 +551,8 @@ class AProc(ScriptedMixin, Process):
 
     def _cell(self, template_name, depth_up=2):
         s = self.spec
-        return build_cell(s['templates'][template_name], s['cellvars'], depth_up)
+        return build_cell(s['templates'][template_name], s['cellvars'], depth_up,
+                          parallel=bool(s.get('parallel_cells')))
 
     def _script_update(self, k, timestep, states):
         s = self.spec
